@@ -214,7 +214,7 @@ theorem c08_unifiedBundle_content (h : Heap) (c : Nat) (g : Good h)
       nb = h1.conts.size ∧ (h'.cont nb).records = news ∧
       news.length = (placeMerged mp (h.cont c).records).length ∧
       (∀ p ∈ (placeMerged mp (h.cont c).records).zip news, recEq (h1.recCell p.1).r (h'.recCell p.2).r = true) ∧
-      (∀ r, r < h1.recs.size → h'.recCell r = h1.recCell r) := by
+      (∀ r, r < h1.recs.size → h'.recCell r = h1.recCell r) ∧ h1.recs.size ≤ h'.recs.size := by
   unfold unifiedBundle at hres
   have g1 := good_unifiedRecords g c
   have hsz := (C13.frameB_unifiedRecords 0 0 h c (Nat.zero_le _) (Nat.zero_le _)).rsize
@@ -257,7 +257,11 @@ theorem c08_unifiedBundle_content (h : Heap) (c : Nat) (g : Good h)
       rw [f1] at hres
       simp only [Prod.mk.injEq, Except.ok.injEq] at hres
       obtain ⟨rfl, rfl⟩ := hres
-      refine ⟨h1, mp, news, hgm, hframe, a1, by rw [f2, hempty]; simp, by rw [flen, hrs], ?_, ?_⟩
+      have hgrow : h1.recs.size ≤ h3.recs.size := by
+        have := (C13.frameB_addRecords 0 0 nb' (Nat.zero_le _) rs h2 (Nat.zero_le _)).rsize
+        rw [f1, a5] at this
+        exact this
+      refine ⟨h1, mp, news, hgm, hframe, a1, by rw [f2, hempty]; simp, by rw [flen, hrs], ?_, ?_, hgrow⟩
       · intro p hp
         rw [← hrs] at hp
         have := (f3 p hp).1
@@ -276,7 +280,7 @@ theorem c08_unifiedBundle_reachable (ops : List HOp) (hops : ∀ op ∈ ops, op.
       nb = h1.conts.size ∧ (h'.cont nb).records = news ∧
       news.length = (placeMerged mp (h.cont c).records).length ∧
       (∀ p ∈ (placeMerged mp (h.cont c).records).zip news, recEq (h1.recCell p.1).r (h'.recCell p.2).r = true) ∧
-      (∀ r, r < h1.recs.size → h'.recCell r = h1.recCell r) := by
+      (∀ r, r < h1.recs.size → h'.recCell r = h1.recCell r) ∧ h1.recs.size ≤ h'.recs.size := by
   obtain ⟨a, b, w⟩ := reachable_invariants ops hops
   exact c08_unifiedBundle_content _ c ⟨a, b, w, hnc⟩ h' nb hres
 
